@@ -54,7 +54,7 @@ def values_raster(rng, H, W, categorical=False, int_overflow=False):
         v = rng.choice(alpha, size=(H, W)).astype(dt)
         kind = 'cat.' + dt
     else:
-        kind = str(rng.choice(['int8', 'uint8', 'int16', 'uint16', 'int32', 'int64', 'uint64', 'float32', 'float64', 'float64_offset', 'const']))
+        kind = str(rng.choice(['int8', 'uint8', 'int16', 'uint16', 'int32', 'int64', 'uint64', 'float32', 'float64', 'float64_offset', 'const', 'int64_big']))
         if kind in ('int8', 'uint8', 'int16', 'uint16', 'int32', 'int64', 'uint64'):
             info = np.iinfo(kind)
             hi = min(info.max, 300 if not int_overflow else info.max)
@@ -62,6 +62,8 @@ def values_raster(rng, H, W, categorical=False, int_overflow=False):
             if int_overflow and kind in ('int32', 'int64', 'uint64'):
                 lo, hi = max(info.min, -70000), 70000          # squares overflow int32; sums stay exact
             v = rng.integers(lo, hi + 1, size=(H, W)).astype(kind)
+        elif kind == 'int64_big':
+            v = (100000000 + rng.integers(0, 1000, size=(H, W)) * 2 + 1).astype('int64')      # statistics that float32 cannot hold
         elif kind == 'float32':
             v = rng.uniform(-50, 50, (H, W)).astype('float32')
         elif kind == 'float64':
